@@ -2081,6 +2081,22 @@ func cfgGenerateCases(c *Ctx, g *cfgGen) []cfgCase {
 				cc.set("AP", "StartingTemperature", cfgF(0))
 				cc.set("AP", "CoolingFactor", cfgF(0))
 			})
+			// temperature 0 is legal and is the DEFAULT: exp(-|change|/0) is 0, or NaN for a proposal that leaves the objective
+			// where it is; with the Annealing level logged that figure goes through the message observer's number formatting
+			// (seed C19k)
+			t("cold-logged", func(cc *cfgStruct) {
+				cc.set("AP", "StartingTemperature", cfgF(0))
+				cc.del("SRL", "Annealing")
+			})
+			t("default-temperature-logged", func(cc *cfgStruct) {
+				cc.del("AP", "StartingTemperature")
+				cc.del("SRL", "Annealing")
+			})
+			t("default-temperature-opportunity-cost-logged", func(cc *cfgStruct) {
+				cc.del("AP", "StartingTemperature")
+				cc.set("AP", "DecisionVariable", cfgS("OpportunityCost"))
+				cc.del("SRL", "Annealing")
+			})
 			t("three-runs-two-concurrent", func(cc *cfgStruct) {
 				cc.set("S", "RunNumber", cfgI(3))
 				cc.set("S", "MaximumConcurrentRunNumber", cfgI(2))
